@@ -731,6 +731,73 @@ def real_recording(res, meth, flags=(True, True)):
                       inp, sorted(expect_left), sorted(left))
 
 
+def windowed_start(res, meth, form):
+    """a mirror started with a time window over a recording that already exists: after the start-up
+    replay the destination holds exactly what a listing with the same kinds and window selects -- which
+    includes the metadata file in force at the start time (its name time is earlier) -- plus the
+    properties files"""
+    import datetime
+    import numpy as np
+    import digital_rf
+    base = common.scratch_dir("drfc17w-")
+    src, dest = os.path.join(base, "src"), os.path.join(base, "dest")
+    os.makedirs(src)
+    os.makedirs(dest)
+    sps = 100
+    start = T0 * sps
+    for ch in ("cha", "chb"):
+        os.makedirs(os.path.join(src, ch, "metadata"))
+        w = digital_rf.DigitalRFWriter(os.path.join(src, ch), np.int16, 3600, 1000, start, sps, 1, uuid_str="u", is_complex=False, marching_periods=False)
+        w.rf_write(np.arange(450).astype(np.int16))
+        w.close()
+        mw = digital_rf.DigitalMetadataWriter(os.path.join(src, ch, "metadata"), 3600, 1, sps, 1, "metadata")
+        for j in range(4):
+            mw.write(start + j * sps, {"v": j})
+    utc = datetime.timezone.utc
+    st = datetime.datetime.fromtimestamp(T0 + 1, utc) + datetime.timedelta(milliseconds=500)     # not on a file boundary
+    en = datetime.datetime.fromtimestamp(T0 + 3, utc) + datetime.timedelta(milliseconds=200)
+    if form == 1:
+        st, en = st.replace(tzinfo=None), en.replace(tzinfo=None)
+    elif form == 2:
+        z = datetime.timezone(datetime.timedelta(hours=5, minutes=30))
+        st, en = st.astimezone(z), en.astimezone(z)
+    before = read_tree(src)
+    sel = set(digital_rf.lsdrf(src, include_drf=False, include_dmd=False, include_drf_properties=True, include_dmd_properties=True))
+    sel |= set(digital_rf.lsdrf(src, starttime=st, endtime=en, include_drf=True, include_dmd=True,
+                                include_drf_properties=False, include_dmd_properties=False))
+    want = {os.path.relpath(p, src): before[os.path.relpath(p, src)] for p in sel}
+    cls = digital_rf.mirror.DigitalRFMirror
+    orig = cls._init_observer
+    cls._init_observer = lambda _s: None
+    try:
+        m = cls(src, dest, method=METH[meth], starttime=st, endtime=en)
+    finally:
+        cls._init_observer = orig
+
+    class _NoObserver(object):
+        def start(self):
+            pass
+    m.observer = _NoObserver()
+    import sys
+    so, dn = sys.stdout, open(os.devnull, "w")
+    sys.stdout = dn
+    try:
+        m.start()
+    finally:
+        sys.stdout = so
+        dn.close()
+    after = read_tree(dest)
+    res.count("windowed-start-%s" % METH[meth])
+    res.case(("windowed-start", meth, form), nontrivial=True)
+    if after != want:
+        res.violation("windowed-start-not-mirrored", "after the start-up replay of a mirror with a time window the destination is not what "
+                      "the listing with the same window selects (incl. the metadata file in force at the start time)",
+                      {"meth": meth, "windowed_start": True, "starttime": str(st), "endtime": str(en)},
+                      sorted(want), {"missing": sorted(set(want) - set(after)), "extra": sorted(set(after) - set(want)),
+                                     "different": sorted(k for k in want if k in after and want[k] != after[k])})
+    shutil.rmtree(base, True)
+
+
 # ----------------------------------------------------------------------------- entry points
 
 WITNESS_STALE = [("W", (-2, 0, 1), 1), ("C", (-2, 0, 1)),
@@ -791,6 +858,9 @@ def _run(res):
     for flags in FLAGS:
         for meth in (0, 1, 2):
             real_recording(res, meth, flags)
+    for meth in (0, 1, 2):
+        for form in (0, 1, 2):
+            windowed_start(res, meth, form)
     res.sample({"method": "move", "events": [list(e) for e in WITNESS_STALE],
                 "note": "witness of C17_finalized_refuted (stale metadata after reordered events)"})
     # guard the extraction with vm_compute
